@@ -16,6 +16,21 @@ CHECKS = {
          "Every expression tree with at most 3 (quick) / 4 (thorough) operator nodes over all 13 binary and 2 unary operators, with the leaves rotated through 14 atom kinds (literals, identifier, calls, index, field access, list, tuple, parenthesised if-expression), is printed fully parenthesised and with only the parentheses the documented table requires. Both texts go through the real parser (sylt_parser::tree); the two public parse trees, ignoring spans and parenthesis nodes, must equal each other and the generator's tree. Complete enumeration, no sampling.",
          "Trusted: the precedence table as written in the property statement and the minimal-parenthesis printer derived from it. Where the table is silent (operand of a unary operator, unary child of * /) the printer always parenthesises, so nothing is demanded there. Value equality follows from tree equality (the compiler only sees the tree) and is additionally covered by C01.",
          "DESIGN.md §4 C13"),
+ "C03": ("fault_enumeration",
+         "exhaustive fault enumeration: every mismatch snippet in every composition of one-hole contexts (bounded depth), with a well-typed twin as control, on the real compiler",
+         "62 definite-mismatch snippets (operators on incompatible literals, arity/argument types, annotation/return/field contradictions, non-bool conditions, heterogeneous lists, calling non-functions, storing void) are planted in every composition of 11 statement contexts up to depth 2 (quick) / 3 (thorough) x 4 placements x every type-compatible one of 20 expression contexts, plus as global initialisers. Each program must be rejected with >= 1 error, zero bytes of Lua written and no panic, and the same context with the snippet's well-typed twin must compile. Complete enumeration of the product.",
+         "Trusted: that each snippet is a definite mismatch as listed in the property; the surface printer (a fault reported as a syntax error, or a control that does not compile, removes the case from the count instead of producing a verdict). Mismatches that only become definite through several unannotated inference hops are out of scope.",
+         "DESIGN.md §3.5, §4 C03"),
+ "C04": ("fault_enumeration",
+         "exhaustive fault enumeration over composed contexts with permitted twins as controls, on the real compiler",
+         "43 forbidden constructs (assignment / compound assignment to :: globals, locals, parameters, case bindings, aliases of constants, captured constants; inside pu functions: assignments, := declarations, reads of mutable variables, calls of impure/unknown-purity functions, at any nesting; impure values where a pu type is declared as annotation, argument, field, return, also laundered through fn-annotated hops) are planted in every composition of statement contexts up to depth 2 / 3 x every placement (for the in-pure group: the body of a global pu function and of a pu closure, through pure-legal contexts only). Rejection with an error and acceptance of the permitted twin are required.",
+         "Trusted: snippet list and printer as for C03. Known finding F-04 (purity laundering through fn-annotated bindings) is listed in known_findings.json and reported as KNOWN-FINDING.",
+         "DESIGN.md §3.5, §4 C04"),
+ "C05": ("fault_enumeration",
+         "exhaustive fault enumeration over all small blob/enum declarations x shape faults x composed contexts, with permitted twins as controls, on the real compiler",
+         "For every blob with a non-empty field subset of {a,b,c} and every enum with a non-empty variant subset of {A,B,C}, plain and generic (14 + 12 declarations): missing / unknown field in a literal, access and assignment of an absent field on a literal, variable, annotated parameter and through an unannotated parameter, a wrongly shaped blob for an annotation, unknown variant constructed / matched, case without else listing a strict subset or a superset; tuple index = length and beyond (literal, variable, parameter, deferred), tuple length mismatches in == + < annotation assignment argument; externblob instantiation; break/continue with no enclosing loop in the same function (including inside a closure inside a loop). All planted in every composition of statement contexts up to depth 2 / 3 x 4 placements; entry-point rules (no start, start not a function, wrong signature, start only in an imported file) as whole programs. Rejection + accepted twin required.",
+         "Trusted: snippet generator and printer as for C03. The second observation of the property (accepted programs load as Lua) is decided by C06 on the program families.",
+         "DESIGN.md §3.5, §4 C05"),
 }
 
 checks = []
